@@ -8,10 +8,16 @@ CONSTANTS
   Aliases = {"bits", "nl", "nopad", "urlsafe", "space"}
   CoverAliases = {"bits"}
   CoverFaultProofs = {"correct"}
+  DonorIdfs = {"absent"}
+  ForgedIdfs = {"absent", "right", "wrong"}
+  HistLogs = {"L1"}
+  HistProofs = {"correct", "empty"}
+  HistFaults = {"ctx"}
+  HistTs = {1}
   Depth = 0
 INIT Init
 NEXT Next
 VIEW StateView
-INVARIANTS TypeOK OnlySigned CosignedHeld
-PROPERTIES ForwardOnly RefusedNoChange Isolated CosignedIsHeldAct CosignedForward FaultedStoreRefused StorageErrorIsError OneHistoryPerLog
+INVARIANTS TypeOK OnlySigned CosignedHeld HeldWasOffered
+PROPERTIES ForwardOnly RefusedNoChange Isolated CosignedIsHeldAct CosignedForward FaultedStoreRefused StorageErrorIsError OneHistoryPerLog ReplayedSigRefused ReplayedLikeBadSig
 CHECK_DEADLOCK FALSE
